@@ -208,6 +208,8 @@ def synth(sim, r, fname, obj, kind):
         elif pname == "path":
             if sim.c08_dir is None:
                 sim.c08_dir = tempfile.mkdtemp(prefix="xgiverif-c08-", dir="/dev/shm")
+                from ..simfs import _ROOTS
+                _ROOTS.add(sim.c08_dir)  # removed at process exit if the run ends early
             v = os.path.join(sim.c08_dir, f"out{r.randrange(3)}")
             if fname == "write_hif_collection" or (fname == "write_json" and False):
                 v = sim.c08_dir
